@@ -114,6 +114,29 @@ func runC14(c *Ctx) {
 					}
 					return true
 				})
+				// defer helper(…, restore, …): a module-local function that calls that parameter
+				if !hit {
+					if hf := calleeOf(info, d.Call); hf != nil && hf.Pkg() != nil && strings.HasPrefix(hf.Pkg().Path(), modRoot) {
+						if cf := c.FuncInfoOf(hf); cf != nil && cf.Decl.Body != nil {
+							var ps []*ast.Ident
+							for _, fld := range cf.Decl.Type.Params.List {
+								ps = append(ps, fld.Names...)
+							}
+							for ai, a := range d.Call.Args {
+								id, ok := ast.Unparen(a).(*ast.Ident)
+								if !ok || info.ObjectOf(id) != restoreObj || ai >= len(ps) {
+									continue
+								}
+								pobj := cf.Info().ObjectOf(ps[ai])
+								for _, call := range callsIn(cf.Decl.Body, true) {
+									if cid, ok := call.Fun.(*ast.Ident); ok && cf.Info().ObjectOf(cid) == pobj {
+										hit = true
+									}
+								}
+							}
+						}
+					}
+				}
 				if hit {
 					deferred = d
 				}
@@ -184,6 +207,46 @@ func runC14(c *Ctx) {
 						return true
 					})
 					c.Check("R14e", fi.Name+"|restore error reported", deferred.Pos(), assignsErr && toNamed, "the deferred restore closure does not assign its error to a named result of %s: a failed restore is silently dropped", fi.Name)
+				} else if hf := calleeOf(info, deferred.Call); hf != nil && c.FuncInfoOf(hf) != nil && c.FuncInfoOf(hf).Decl.Body != nil && info.ObjectOf(deferredFunIdent(deferred)) != restoreObj {
+					// defer helper(…, &err): the helper stores the restore error through a pointer to a named result
+					cf := c.FuncInfoOf(hf)
+					named := map[types.Object]bool{}
+					if fi.Decl.Type.Results != nil {
+						for _, fld := range fi.Decl.Type.Results.List {
+							for _, nm := range fld.Names {
+								named[info.ObjectOf(nm)] = true
+							}
+						}
+					}
+					var ps []*ast.Ident
+					for _, fld := range cf.Decl.Type.Params.List {
+						ps = append(ps, fld.Names...)
+					}
+					stores := false
+					for ai, a := range deferred.Call.Args {
+						un, ok := ast.Unparen(a).(*ast.UnaryExpr)
+						if !ok || un.Op != token.AND || ai >= len(ps) {
+							continue
+						}
+						id, ok := ast.Unparen(un.X).(*ast.Ident)
+						if !ok || !named[info.ObjectOf(id)] {
+							continue
+						}
+						pobj := cf.Info().ObjectOf(ps[ai])
+						ast.Inspect(cf.Decl.Body, func(m ast.Node) bool {
+							if as, ok := m.(*ast.AssignStmt); ok {
+								for _, l := range as.Lhs {
+									if st, ok := ast.Unparen(l).(*ast.StarExpr); ok {
+										if pid, ok := ast.Unparen(st.X).(*ast.Ident); ok && cf.Info().ObjectOf(pid) == pobj {
+											stores = true
+										}
+									}
+								}
+							}
+							return true
+						})
+					}
+					c.Check("R14e", fi.Name+"|restore error reported", deferred.Pos(), stores, "the deferred restore helper does not store its error through a pointer to a named result of %s: a failed restore is silently dropped", fi.Name)
 				} else {
 					c.Check("R14e", fi.Name+"|restore error reported", deferred.Pos(), false, "`defer restore(ctx)` discards the restore error")
 				}
@@ -503,23 +566,55 @@ func checkSnapshotKinds(c *Ctx) {
 		return
 	}
 	info := fi.Info()
-	// kinds deleted: string constants inside function literals mentioning sqlite_master and "type IN"
+	// kinds deleted: string constants of the restore function (closure or method value returned by Snapshot,
+	// including package-level tables it reads) mentioning sqlite_master and "type IN"
 	deleted := map[string]bool{}
 	checked := map[string]bool{}
-	ast.Inspect(fi.Decl.Body, func(m ast.Node) bool {
-		fl, ok := m.(*ast.FuncLit)
-		if !ok {
-			return true
+	rbody, rinfo := snapshotRestoreBody(c, fi)
+	addConst := func(sv string) {
+		if !strings.Contains(sv, "sqlite_master") {
+			return
 		}
-		ast.Inspect(fl.Body, func(k ast.Node) bool {
+		up := strings.ToUpper(sv)
+		if i := strings.Index(up, "TYPE IN"); i >= 0 {
+			rest := sv[i:]
+			if a, b := strings.Index(rest, "("), strings.Index(rest, ")"); a >= 0 && b > a {
+				for _, k := range strings.Split(rest[a+1:b], ",") {
+					deleted[strings.Trim(strings.TrimSpace(k), "'\"`")] = true
+				}
+			}
+		}
+	}
+	if rbody != nil {
+		ast.Inspect(rbody, func(k ast.Node) bool {
 			if e, ok := k.(ast.Expr); ok {
-				if sv, ok := stringConst(info, e); ok && strings.Contains(sv, "sqlite_master") {
-					up := strings.ToUpper(sv)
-					if i := strings.Index(up, "TYPE IN"); i >= 0 {
-						rest := sv[i:]
-						if a, b := strings.Index(rest, "("), strings.Index(rest, ")"); a >= 0 && b > a {
-							for _, k := range strings.Split(rest[a+1:b], ",") {
-								deleted[strings.Trim(strings.TrimSpace(k), "'\"`")] = true
+				if sv, ok := stringConst(rinfo, e); ok {
+					addConst(sv)
+				}
+				if id, ok := e.(*ast.Ident); ok {
+					if v, ok := rinfo.ObjectOf(id).(*types.Var); ok && v.Parent() == v.Pkg().Scope() {
+						// package-level variable: constants of its initialiser
+						if p := c.Pkg(v.Pkg().Path()); p != nil {
+							for _, file := range p.Syntax {
+								ast.Inspect(file, func(j ast.Node) bool {
+									vs, ok := j.(*ast.ValueSpec)
+									if !ok {
+										return true
+									}
+									for i, nm := range vs.Names {
+										if p.TypesInfo.ObjectOf(nm) == v && i < len(vs.Values) {
+											ast.Inspect(vs.Values[i], func(q ast.Node) bool {
+												if qe, ok := q.(ast.Expr); ok {
+													if sv, ok := stringConst(p.TypesInfo, qe); ok {
+														addConst(sv)
+													}
+												}
+												return true
+											})
+										}
+									}
+									return true
+								})
 							}
 						}
 					}
@@ -527,21 +622,32 @@ func checkSnapshotKinds(c *Ctx) {
 			}
 			return true
 		})
-		return false
-	})
-	walkShallow(fi.Decl.Body, func(m ast.Node) bool {
-		if se, ok := m.(*ast.SelectorExpr); ok {
-			if f := fieldOf(info, se); f != nil && isField(info, se, pSchema, "Schema", f.Name()) {
-				switch f.Name() {
-				case "Tables":
-					checked["table"] = true
-				case "Views":
-					checked["view"] = true
-				}
+	}
+	// what the cleanliness test looks at: Snapshot itself and the package-local predicates it calls
+	scope := []*FuncInfo{fi}
+	for _, call := range callsIn(fi.Decl.Body, false) {
+		if fn := calleeOf(info, call); fn != nil && fn.Pkg() != nil && fn.Pkg().Path() == pSqlite {
+			if cf := c.FuncInfoOf(fn); cf != nil && cf.Decl.Body != nil && cf.Decl.Body != rbody {
+				scope = append(scope, cf)
 			}
 		}
-		return true
-	})
+	}
+	for _, sf := range scope {
+		sinfo := sf.Info()
+		walkShallow(sf.Decl.Body, func(m ast.Node) bool {
+			if se, ok := m.(*ast.SelectorExpr); ok {
+				if f := fieldOf(sinfo, se); f != nil && isField(sinfo, se, pSchema, "Schema", f.Name()) {
+					switch f.Name() {
+					case "Tables":
+						checked["table"] = true
+					case "Views":
+						checked["view"] = true
+					}
+				}
+			}
+			return true
+		})
+	}
 	if len(deleted) == 0 {
 		c.Unresolved("R14f", "sqlite restore closure: DELETE FROM sqlite_master WHERE type IN (…)")
 		return
@@ -561,37 +667,76 @@ func checkRestoreAllPaths(c *Ctx) {
 	if fi == nil {
 		return
 	}
-	info := fi.Info()
-	var fl *ast.FuncLit
-	ast.Inspect(fi.Decl.Body, func(m ast.Node) bool {
-		if r, ok := m.(*ast.ReturnStmt); ok && len(r.Results) == 2 {
-			if l, ok := r.Results[0].(*ast.FuncLit); ok {
-				fl = l
+	rbody, info := snapshotRestoreBody(c, fi)
+	if rbody == nil {
+		c.Unresolved("R14g", "sqlite Snapshot: the restore function it returns (closure or method value)")
+		return
+	}
+	var rx ast.Node
+	ast.Inspect(rbody, func(m ast.Node) bool {
+		switch l := m.(type) {
+		case *ast.RangeStmt:
+			if nodeHasCall(info, l.Body, dbExec) != nil {
+				rx = l.X
+			}
+		case *ast.ForStmt:
+			if nodeHasCall(info, l.Body, dbExec) != nil && l.Cond != nil {
+				rx = l.Cond
 			}
 		}
 		return true
 	})
-	if fl == nil {
-		c.Unresolved("R14g", "sqlite Snapshot: returned restore closure")
-		return
-	}
-	var rx ast.Expr
-	ast.Inspect(fl.Body, func(m ast.Node) bool {
-		if rs, ok := m.(*ast.RangeStmt); ok && nodeHasCall(info, rs.Body, dbExec) != nil {
-			rx = rs.X
-		}
-		return true
-	})
 	if rx == nil {
-		c.Unresolved("R14g", "sqlite restore closure: loop executing the clean-up statements")
+		c.Unresolved("R14g", "sqlite restore function: loop executing the clean-up statements")
 		return
 	}
-	f := newFlow(info, fl.Body)
-	isLoop := func(n ast.Node) bool { return n == ast.Node(rx) }
+	f := newFlow(info, rbody)
+	isLoop := func(n ast.Node) bool { return n == rx }
 	nilRet := func(n ast.Node) bool {
 		r, ok := n.(*ast.ReturnStmt)
 		return ok && len(r.Results) == 1 && isNilIdent(info, r.Results[0])
 	}
 	n, found := f.reach([]point{f.entry()}, isLoop, nilRet, true)
-	c.Check("R14g", "sqlite.Snapshot|restore executes its statements before reporting success", nodePos(n, fl.Pos()), !found, "the restore closure can return nil at %s without executing the clean-up statements: objects the shortcut does not look at (views, triggers) are left in the dev database", c.nodeAtOrEnd(n))
+	c.Check("R14g", "sqlite.Snapshot|restore executes its statements before reporting success", nodePos(n, rbody.Pos()), !found, "the restore function can return nil at %s without executing the clean-up statements: objects the shortcut does not look at (views, triggers) are left in the dev database", c.nodeAtOrEnd(n))
+}
+
+// deferredFunIdent returns the identifier called by a defer statement (nil for literals and selectors).
+func deferredFunIdent(d *ast.DeferStmt) *ast.Ident {
+	id, _ := ast.Unparen(d.Call.Fun).(*ast.Ident)
+	if id == nil {
+		return &ast.Ident{}
+	}
+	return id
+}
+
+// snapshotRestoreBody returns the body of the restore function a Snapshot implementation returns:
+// a function literal, or a module-local function / method value.
+func snapshotRestoreBody(c *Ctx, fi *FuncInfo) (*ast.BlockStmt, *types.Info) {
+	info := fi.Info()
+	var body *ast.BlockStmt
+	binfo := info
+	ast.Inspect(fi.Decl.Body, func(m ast.Node) bool {
+		r, ok := m.(*ast.ReturnStmt)
+		if !ok || len(r.Results) != 2 || isNilIdent(info, r.Results[0]) {
+			return true
+		}
+		switch x := ast.Unparen(r.Results[0]).(type) {
+		case *ast.FuncLit:
+			body = x.Body
+		case *ast.SelectorExpr:
+			if fn, ok := info.ObjectOf(x.Sel).(*types.Func); ok {
+				if cf := c.FuncInfoOf(fn); cf != nil && cf.Decl.Body != nil {
+					body, binfo = cf.Decl.Body, cf.Info()
+				}
+			}
+		case *ast.Ident:
+			if fn, ok := info.ObjectOf(x).(*types.Func); ok {
+				if cf := c.FuncInfoOf(fn); cf != nil && cf.Decl.Body != nil {
+					body, binfo = cf.Decl.Body, cf.Info()
+				}
+			}
+		}
+		return true
+	})
+	return body, binfo
 }
